@@ -126,7 +126,7 @@ def _ord_en(n):
 # "{n}ten" - the German ordinal suffix "ten" is also the English named hour "ten"
 # ("29ten" = the 29th at ten o'clock; both readings cover the whole text)
 DOM_TPL = ["{n}.", "{o}", "am {n}.", "the {o}", "on the {o}", "den {n}.", "am {n}.",
-           "der {n}."]
+           "der {n}.", "this {o}", "diesen {n}."]
 DOY_TPL = ["{d}.{m}.", "{d}.{m}", "{d:02d}.{m:02d}.", "{d}. {M}", "{d} {M}", "{M} {d}", "{M} {o}",
            "{o} of {M}", "{o} {M}", "am {d}.{m}.", "on {M} {o}", "{d}/{m}x", "{m}/{d}y"]
 # ruleDDMM / ruleMMDD / ruleDOMMonth / ruleMonthDOM / ruleDOMMonth2
@@ -256,6 +256,13 @@ def c05_forms(rng, n):
         y = rng.randint(1990, 2029)
         m = rng.randint(1, 12)
         d = rng.choice([1, 2, 9, 10, 12, 13, 28, 29, 30, 31, rng.randint(1, 31)])
+        if rng.random() < 0.15:
+            # calendar corner dates: every 29 February of the range (2000 is a leap year by the
+            # 400-rule), the day before, year ends and starts
+            y, m, d = rng.choice(
+                [(yy, 2, 29) for yy in range(1992, 2029, 4)] + [(2000, 2, 29)] * 3
+                + [(2000, 2, 28), (2000, 3, 1), (1999, 12, 31), (2000, 1, 1), (2001, 2, 28),
+                   (2019, 12, 31), (2020, 1, 1), (2024, 2, 29), (2029, 12, 31), (1990, 1, 1)])
         if d > _c.monthrange(y, m)[1]:
             continue
         tpl = rng.choice(ABS_TPL)
@@ -424,18 +431,34 @@ def c06_forms(rng, n, year_hint=2020):
                 continue
             if 1 <= h <= 11:
                 pw = rng.choice(["in the morning", "morgens", "vormittags",
-                                 "in the early morning", "in the late morning"])
+                                 "in the early morning", "in the late morning", "am vormittag"])
             elif 13 <= h <= 17:
                 pw = rng.choice(["in the afternoon", "nachmittags", "in the late afternoon",
-                                 "in the early afternoon", "am späten nachmittag"])
+                                 "in the early afternoon", "am späten nachmittag",
+                                 "am nachmittag"])
             elif 18 <= h <= 23:
                 pw = rng.choice(["in the evening", "abends", "at night", "in the early evening",
-                                 "in the late evening", "late at night", "am frühen abend"])
+                                 "in the late evening", "late at night", "am frühen abend",
+                                 "am abend"])
+            elif h == 12:
+                pw = rng.choice(["mittags", "am mittag", "am vormittag"])
             else:
                 continue
-            hh = h if h < 12 else h - 12
-            f = (("%d:%02d %s" % (hh, mi, pw)) if mi else ("%d %s" % (hh, pw)),
-                 "pod:{h}:{mm} %s" % pw if mi else "pod:{h} <part of day>")
+            hh = h if h <= 12 else h - 12
+            if h == 12 or (rng.random() < 0.25 and pw.split()[0] in (
+                    "am", "vormittags", "nachmittags", "abends", "morgens")
+                    and pw != "am späten nachmittag" and pw != "am frühen abend"):
+                # digits + clock word + German part of day ("3 uhr am nachmittag",
+                # "12 uhr am mittag"): the preposition "am" directly after the clock word
+                if pw in ("in the afternoon",):
+                    pw = "am nachmittag"
+                cw = rng.choice([" uhr", " uhr", "h"])
+                f = (("%d:%02d%s %s" % (hh, mi, cw if cw == " uhr" else " uhr", pw)) if mi
+                     else ("%d%s %s" % (hh, cw, pw)),
+                     "pod:{h}:{mm} uhr %s" % pw if mi else "pod:{h} uhr %s" % pw)
+            else:
+                f = (("%d:%02d %s" % (hh, mi, pw)) if mi else ("%d %s" % (hh, pw)),
+                     "pod:{h}:{mm} %s" % pw if mi else "pod:{h} <part of day>")
         elif k == "midnight":
             if h or mi:
                 continue
